@@ -48,7 +48,11 @@ namespace HC.C17
 open HC HC.C03
 open HC.Gen.Anchors
 
-/-! ## (c) the anchor merge algebra (generated table) -/
+/-! ## (c) the anchor merge algebra (generated table)
+
+The same statements are proved as `HC.C15.C15_{v,e,f}anchor_merge_{comm,idem,lower_dim,fails_iff,assoc}` and
+`C15_*_ofCode_code` in `Props/C15.lean`; they are re-derived here (a few lines each, directly from the generated
+arms) so that the C17 module does not depend on the build of the remeshing proofs. -/
 
 section Algebra
 
